@@ -625,6 +625,7 @@ pub fn gen_run(rng: &mut Rng, n: usize, k: &RunKnobs) -> RunSpec {
         // tokio's cooperative budget only bites when many operations happen in one
         // poll: mostly wide graphs
         coop: if n >= 25 { rng.chance(1, 3) } else { rng.chance(1, 24) },
+        unwind_drop_mask: if api.is_stream() && rng.chance(1, 8) { rng.range(1, 255) as u8 } else { 0 },
     }
 }
 
